@@ -131,7 +131,8 @@ CLAIMS = {
                   'CrossHair enumeration of hostile values / environment settings through real in-process bob dev with the real bash executing build, package and fingerprint scripts',
         text='(1) For every string up to length 4 (thorough 7) without NUL the word bob.languages.quote() writes into the bash prolog is read back by the sh quoting rules as exactly that string, as one literal word. '
              '(2) For all 2^14 combinations of a variable being listed in {checkout,build,package}Vars[Weak] of a recipe and an inherited class, each step sees exactly the variables declared for it or an earlier step. '
-             '(3) Real bash: for 17 hostile values (blanks, $, $( ), backticks, both quotes, backslash, newline, tab, glob, non-ASCII, empty, -n), with and without -E and with and without a white-listed host variable, '
+             '(3) Real bash: for 17 hostile values and all 400 pairs of 20 special fragments (blanks, $, $( ), backticks, both quotes, backslash and backslash escapes, newline, CR, tab, glob, brace, non-ASCII, empty, -n), '
+             'a consumed tool that must come first on PATH / LD_LIBRARY_PATH even if the recipe declares these names, with and without -E and a white-listed host variable (first batch), '
              'the build, package and fingerprint scripts see the declared variables with exactly that value, no variable of a later step, no undeclared recipe variable, the fingerprint script only its fingerprintVars, '
              'and host variables only if white-listed (or -E).',
         design_ref='DESIGN.md section 4, C13',
